@@ -30,5 +30,19 @@ p = V / "DESIGN.md"
 s = p.read_text()
 s = re.sub(r"<!-- FINDINGS:BEGIN -->.*?<!-- FINDINGS:END -->", "<!-- FINDINGS:BEGIN -->\n" + findings.replace("\\", "\\\\") + "\n<!-- FINDINGS:END -->", s, flags=re.S)
 s = re.sub(r"<!-- SEEDED:BEGIN -->.*?<!-- SEEDED:END -->", "<!-- SEEDED:BEGIN -->\n" + seeded.replace("\\", "\\\\") + "\n<!-- SEEDED:END -->", s, flags=re.S)
+# per-property "as built" paragraphs
+for mf in sorted((V / "manifest.d").glob("C*.json")):
+    d = json.loads(mf.read_text())
+    pid = d["property_id"]
+    props = V / "coq" / "Props" / f"{pid}.v"
+    names = re.findall(r"^Theorem ([A-Za-z0-9_']+)", props.read_text(), re.M) if props.exists() else []
+    n_open = sum(1 for x in opened if x["property"] == pid)
+    n_fixed = sum(1 for x in fixed if x["property"] == pid)
+    text = (f"*As built (level claimed: {d.get('category', 'proof')}).* {d['text']}\n\n"
+            f"*Theorems in `coq/Props/{pid}.v` ({len(names)}):* " + ", ".join(f"`{n}`" for n in names) + ".\n\n"
+            f"*Trusted / assumed:* {d['note']}\n\n*Findings:* {n_fixed} repaired, {n_open} open (section 7). "
+            f"Files: `harness/{pid.lower()}.py`, `coq/Props/{pid}.v`.")
+    s = re.sub(rf"<!-- ASBUILT:{pid}:BEGIN -->.*?<!-- ASBUILT:{pid}:END -->",
+               lambda m_: f"<!-- ASBUILT:{pid}:BEGIN -->\n{text}\n<!-- ASBUILT:{pid}:END -->", s, flags=re.S)
 p.write_text(s)
 print(len(fixed), "fixed,", len(opened), "open,", len(rows) - 2, "seeded")
